@@ -20,6 +20,10 @@ import zlib
 from mc import core
 from mc.core import Stats
 
+class _Timeout(BaseException):
+    """raised by the wall-clock deadline of a word check; never swallowed"""
+
+
 PROPERTY = "C01"
 LEVEL = "model_checking"
 RULE = (
@@ -256,6 +260,8 @@ def check_lex(s, st):
         return "exc:" + type(e).__name__, None, None
     except RecursionError:
         return "recursion", None, None
+    except _Timeout:
+        raise
     except BaseException as e:  # noqa
         return "other", ("outcome", "non-Mako exception from Lexer.parse", "%s: %s" % (type(e).__name__, e)), None
     st.oracles["outcome_class"] += 1
@@ -338,6 +344,8 @@ def check_render(s, st):
     st.oracles["render"] += 1
     try:
         got = Template(s).render_unicode()
+    except _Timeout:
+        raise
     except BaseException as e:  # noqa
         return "render-exc", ("render", "documented-literal document does not render", {"expected": exp, "error": "%s: %s" % (type(e).__name__, str(e)[:200])})
     if got != exp:
@@ -381,6 +389,8 @@ def check_preprocess(s, st):
                 return ("ok", _dump(Lexer(text, **kw).parse().nodes, parsetree))
             except (exceptions.SyntaxException, exceptions.CompileException) as e:
                 return ("exc", type(e).__name__, e.lineno, e.pos)
+            except _Timeout:
+                raise
             except BaseException as e:  # noqa
                 return ("other", type(e).__name__)
 
@@ -396,10 +406,6 @@ def drop_signature(s, info):
     # footprint of a dropped character: the character and what follows it
     off = info["offset"]
     return "drop:%r before %r" % (s[off], s[off + 1 : off + 3])
-
-
-class _Timeout(BaseException):
-    pass
 
 
 _TIMEOUTS = [0]
@@ -419,7 +425,7 @@ class _deadline:
             raise _Timeout()
 
         self.old = signal.signal(signal.SIGALRM, onalarm)
-        signal.setitimer(signal.ITIMER_REAL, self.seconds)
+        signal.setitimer(signal.ITIMER_REAL, self.seconds, 0.5)
 
     def __exit__(self, *a):
         import signal
@@ -570,6 +576,15 @@ def _run_job(job, st):
                         continue
                     seen.add(s)
                     check_string(s, st, "word")
+                    if _TIMEOUTS[0] >= 12:
+                        break
+                if _TIMEOUTS[0] >= 12:
+                    break
+            if _TIMEOUTS[0] >= 12:
+                # the violation is established; what is left of this shard would only wait for more deadlines
+                st.exhaustive = False
+                st.caps.append("words: shard %d abandoned after 12 inputs on which lexing does not terminate" % sh)
+                break
         st.extra["words"] = len(seen)
     elif job["kind"] == "units":
         sh, ns = job["shard"], job["nshards"]
@@ -578,7 +593,17 @@ def _run_job(job, st):
             if zlib.crc32(src.encode("utf-8")) % ns != sh or src in seen:
                 continue
             seen.add(src)
-            check_unit_doc(src, st)
+            limit = 5 if _TIMEOUTS[0] < 3 else 1
+            try:
+                with _deadline(limit):
+                    check_unit_doc(src, st)
+            except _Timeout:
+                _TIMEOUTS[0] += 1
+                st.violation("time:short-input-does-not-terminate", {"kind": "units", "text": src}, "time: lexing / rendering a short document finishes", observed="still running after %d s" % limit)
+                if _TIMEOUTS[0] >= 12:
+                    st.exhaustive = False
+                    st.caps.append("units: shard %d abandoned after 12 inputs on which lexing does not terminate" % sh)
+                    break
         st.extra["unit_docs"] = len(seen)
     elif job["kind"] == "time":
         check_family_batch([tuple(f) for f in job["fams"]], b["rep_max"], st, limit=b["time_limit"])
@@ -605,6 +630,8 @@ def check_unit_doc(src, st):
                 v = ("render", "unit document renders differently from its documented text", {"expected": exp, "observed": got})
             else:
                 rout = "ok"
+        except _Timeout:
+            raise
         except BaseException as e:  # noqa
             rout = "exc"
             v = ("render", "well-formed unit document does not render", {"expected": exp, "error": "%s: %s" % (type(e).__name__, str(e)[:200])})
@@ -667,6 +694,8 @@ for (p, w, s, sizes) in fams:
             o = "exc"
         except RecursionError:
             o = "recursion"
+        except _Timeout:
+            raise
         except BaseException as e:
             o = "other:" + type(e).__name__
         signal.setitimer(signal.ITIMER_VIRTUAL, 0)
